@@ -12,6 +12,15 @@ transition table; for random_word (a) the word dictated by cumulative-count unra
 recorded randint results where the counts are brute-force prefix counts, and (b) on small
 cases the *exact* output distribution obtained by exhausting the outcome tree of the RNG
 (every accepted word of length k must have probability exactly 1/N).
+
+Round 2 (review gaps): DAGLEN — networkx `dag_longest_path_length(subgraph)` / NetworkXUnfeasible
+on random digraphs (10–40 nodes, self-loops, 2-cycles, back edges) against the model's contract
+function AND an independent DFS oracle; DFAs over the empty alphabet (exhaustive ≤3 states);
+DFAs with 10–14 states (counts/cardinality by forward path counting); cardinalities ≥ 2^63.
+Two probe families reproduce the OPEN findings on every run: `len(dfa)` raises OverflowError
+from 2^63 words on (key C13:len-overflow-2^63; the model's `lenBuiltin` has that branch and
+theorem C13_len_full_fails proves it) and cached queries on an unbound temporary raise
+RuntimeError (key C06:cached-query-on-temporary, owned by C06).
 """
 from __future__ import annotations
 
@@ -23,6 +32,7 @@ from automata.fa.dfa import DFA
 
 from harness import gen
 from harness import dfa_query_lib as L
+from harness import dfa_query_lib2 as L2
 from harness.common import guarded as case_guard
 from harness.common import Ctx, Toks, call, enc_dfa, toks
 
@@ -30,14 +40,26 @@ LEVEL = "proof"
 RULE = ("cases = (valid DFA, query, parameters) with query ∈ {count k, words k, min/max/empty/finite, "
         "cardinality/len, iteration prefix n, random_word k with recorded RNG outcomes}; corpus (F3 trigger, "
         "mutant killers), all DFAs with ≤2 states over {a,b} × every k ≤ 5, then shaped random DFAs "
-        "(≤6 states; random / acyclic / from_finite_language / empty / universal / extra rows); a case is "
+        "(≤6 states; random / acyclic / from_finite_language / empty / universal / extra rows), every DFA over "
+        "the empty alphabet with ≤3 states, DFAs with 10–14 states (light: counts by forward path counting), "
+        "of_length languages with up to 2^71 words (cardinality/len), random digraphs of 10–40 nodes for the "
+        "networkx contract, probes of the two open findings; a case is "
         "non-trivial when the language is non-empty and the DFA has ≥2 states; distinct = distinct "
         "(definition, query, parameters)")
 ASSUMPTIONS = [
     "lengths k are naturals (negative lengths index the caches from the end: finding F18, outside the domain)",
-    "symbols are single characters compared by code point; association lists represent dicts (unique keys)",
-    "uniformity of CPython's Random.randint is trusted; the theorem counts RNG outcomes",
-    "networkx dag_longest_path_length / topological_sort are modelled by their contract",
+    "symbols are single characters compared by code point (domain restriction, DESIGN §3: words are Python "
+    "strings, so with a multi-character symbol such as 'ab' words_of_length(1) == ['ab'] is read back by "
+    "accepts_input as two symbols; such alphabets are usable with list inputs only and are outside this "
+    "property; the empty string as a symbol is refused by validate since /repo 07f4843); association lists "
+    "represent dicts (unique keys)",
+    "uniformity and independence of CPython's Random.randint are trusted; C13_random_uniform_output computes "
+    "the probability of the event `randomWord k cs = ok w` over the loop's own draw tree (each result uniform "
+    "on its range)",
+    "networkx dag_longest_path_length / topological_sort are modelled by their contract; the contract function "
+    "is compared with networkx itself and with an independent DFS oracle on random digraphs (DAGLEN family)",
+    "len(dfa): sys.maxsize = 2^63 - 1 (64-bit CPython); queries are made on bound objects (a cached query on an "
+    "unbound temporary raises RuntimeError: open finding C06:cached-query-on-temporary, probed on every run)",
 ]
 EXPLANATION = ("Theorems C13_* characterise the model's tables, lengths, cardinality, iteration and "
                "random_word by the language of the DFA for every DFA and k; this run ties the model to "
@@ -125,19 +147,32 @@ def prop_minmax(d: DFA, shape):
     return out, dict(min=mn, max=mx, empty=em, finite=fi)
 
 
-def prop_card(d: DFA, shape, bw_full):
-    out = []
+def prop_card(d: DFA, shape, bw_full, n_words=None):
+    """(failures, observations, failures that are the open finding C13:len-overflow-2^63).
+    `n_words`: the number of words when it was obtained without enumeration."""
+    out, known = [], []
     ca = on_fresh(d, lambda c: c.cardinality())
     ln = on_fresh(d, lambda c: len(c))
     if not shape["finite"]:
         exp = ("err", "InfiniteLanguageException")
     else:
-        exp = ("ok", sum(len(v) for v in bw_full.values()))
+        exp = ("ok", n_words if n_words is not None else sum(len(v) for v in bw_full.values()))
     if ca != exp:
         out.append(f"cardinality = {ca}, language dictates {exp}")
     if ln != exp:
-        out.append(f"len = {ln}, language dictates {exp}")
-    return out, dict(card=ca, len=ln)
+        msg = f"len = {ln}, language dictates {exp}"
+        if exp[0] == "ok" and exp[1] >= L2.SSIZE_LIMIT and ln == ("err", "OverflowError"):
+            known.append(msg)
+        else:
+            out.append(msg)
+    return out, dict(card=ca, len=ln), known
+
+
+def model_card(ctx, enc):
+    t = Toks(ctx.driver(L.DRV).ask(toks("CARD", enc)))
+    t.expect("card"); m_card = t.res(t.int)
+    t.expect("len"); m_len = t.res(t.int)
+    return dict(card=m_card, len=m_len)
 
 
 def prop_iter(d: DFA, n: int, expected):
@@ -271,14 +306,14 @@ def check_dfa(ctx: Ctx, d: DFA, origin: str, *, uniform: bool = False, light: bo
 
     # ---- CARD
     ctx.case(("card", enc) if nontrivial else None)
-    bad, obs = prop_card(d, shape, bw if shape["finite"] else {})
+    bad, obs, known = prop_card(d, shape, bw if shape["finite"] else {})
     for b in bad:
         fail(ctx, d, "card", {}, b)
-    t = Toks(ctx.driver(L.DRV).ask(toks("CARD", enc)))
-    t.expect("card"); m_card = t.res(t.int)
-    t.expect("len"); m_len = t.res(t.int)
-    if dict(card=m_card, len=m_len) != obs and not bad:
-        ctx.corr_diff("CARD", dict(automaton=repr(d)), obs, dict(card=m_card, len=m_len))
+    for b in known:
+        ctx.prop_fail(f"card{{}}: {b}", dict(automaton=repr(d), op="card", params={}, what=b), L2.KEY_LEN)
+    mod = model_card(ctx, enc)
+    if mod != obs and not bad:
+        ctx.corr_diff("CARD", dict(automaton=repr(d)), obs, mod)
 
     # ---- ITER
     ordered = [w for k in sorted(bw) for w in bw[k]]
@@ -360,6 +395,208 @@ def big_lengths(ctx: Ctx):
                 fail(ctx, d, "count_words_of_length", dict(k=k), f"count_words_of_length({k}) on {name} is not the exact count")
 
 
+# --------------------------------------------------------------- round 2: open findings, contract, blind spots
+def prop_card_counted(d: DFA):
+    """cardinality() / len() / __len__() against the number of words obtained by FORWARD path
+    counting (no enumeration, so the language may have 2^70 words)."""
+    shape = L.language_shape(d)
+    n_words = None
+    if shape["finite"]:
+        n_words = 0 if shape["empty"] else sum(L2.forward_counts(d, shape["max"]))
+    bad, obs, known = prop_card(d, shape, {}, n_words=n_words)
+    if shape["finite"]:
+        me = on_fresh(d, lambda c: c.__len__())
+        if me != ("ok", n_words):
+            bad.append(f"__len__() = {me}, the language has {n_words} words")
+    return bad, obs, known
+
+
+@case_guard
+def len_probes(ctx: Ctx):
+    """G1 + G5: finite languages with up to 2^71 words.  cardinality() must be exact; len() must
+    be the same number — which it is NOT from 2^63 on (OverflowError raised by the interpreter's
+    Py_ssize_t conversion): open finding, reported under its key on every run.  The model's CARD
+    answer (lenBuiltin) is compared as well: it has the overflow branch."""
+    for expr, why in L2.LEN_PROBES:
+        d = L2.eval_dfa(expr)
+        ctx.case(("len_big", expr))
+        ctx.stat("len_probe")
+        bad, obs, known = prop_card_counted(d)
+        for b in bad:
+            ctx.prop_fail(f"{expr}: {b}", dict(automaton=expr, op="len_big", params={}, what=b), FAIL_KEY)
+        for b in known:
+            ctx.stat("len_probe:overflow_reproduced")
+            ctx.prop_fail(f"len({expr}): {b}", dict(automaton=expr, op="len_big", params={}, what=b), L2.KEY_LEN)
+        enc, _, _ = enc_dfa(d)
+        mod = model_card(ctx, enc)
+        if mod != obs and not bad:
+            ctx.corr_diff("CARD(big)", dict(automaton=expr, why=why), obs, mod)
+
+
+def prop_temporary(expr: str, meth: str):
+    """A query on an unbound temporary must answer what the same query answers on a bound object.
+    (failures, failures that are the open finding C06:cached-query-on-temporary)"""
+    exp = L2.on_bound(expr, meth)
+    got = L2.on_temporary(expr, meth)
+    if got == exp:
+        return [], []
+    msg = f"({expr}).{meth}() on an unbound temporary = {got}; the same call on a bound object = {exp}"
+    if got == ("err", "RuntimeError"):
+        return [], [msg]
+    return [msg], []
+
+
+@case_guard
+def temporaries_probe(ctx: Ctx):
+    """X2: `DFA.universal_language({'a'}).cardinality()` — cached_method keeps only a weak reference
+    to the receiver, so a cached query on a temporary raises RuntimeError.  Open finding owned by
+    C06; reproduced here for C13's cached queries on every run."""
+    for expr in L2.TEMP_EXPRS:
+        for meth in L2.TEMP_METHODS:
+            ctx.case(("temporary", expr, meth))
+            ctx.stat("temporary_probe")
+            bad, known = prop_temporary(expr, meth)
+            for b in bad:
+                ctx.prop_fail(b, dict(automaton=expr, op="temporary", params=dict(method=meth), what=b), FAIL_KEY)
+            for b in known:
+                ctx.stat("temporary_probe:runtime_error_reproduced")
+                ctx.prop_fail(b, dict(automaton=expr, op="temporary", params=dict(method=meth), what=b), L2.KEY_TMP)
+
+
+@case_guard
+def dag_case(ctx: Ctx, nodes, edges, V, kind: str):
+    """G3: the part of maximum_word_length that is modelled by contract.  networkx itself
+    (the exact calls of the code) vs the model's contract function (driver DAGLEN) vs an
+    independent DFS oracle."""
+    ctx.case(("dag", tuple(edges), tuple(V)))
+    ctx.stat(f"dag:{kind}")
+    real = L2.networkx_longest(edges, nodes, V)
+    orc = L2.longest_path_oracle(edges, V)
+    ctx.stat("dag:unfeasible" if real is None else "dag:length")
+    m = Toks(ctx.driver(L.DRV).ask(toks("DAGLEN", L2.enc_digraph(edges, V)))).optint()
+    case = dict(nodes=len(nodes), edges=list(edges), V=list(V))
+    if real != orc:
+        ctx.corr_diff("networkx-contract", case, real, dict(dfs_oracle=orc))
+    if m != real:
+        ctx.corr_diff("DAGLEN", case, real, m)
+
+
+def dag_family(ctx: Ctx):
+    fixed = [
+        ([0], [], [0], "single"), ([0], [(0, 0)], [0], "self_loop"), ([0, 1], [(0, 1), (1, 0)], [0, 1], "two_cycle"),
+        ([0, 1], [(0, 1), (1, 0)], [0], "two_cycle+subset"), ([0, 1, 2], [(0, 1), (1, 2), (0, 2)], [2, 0, 1], "dag"),
+        ([0, 1, 2], [(0, 1), (1, 2), (2, 2)], [0, 1], "self_loop+subset"),
+    ]
+    for nodes, edges, V, kind in fixed:
+        dag_case(ctx, nodes, edges, V, kind)
+    for _ in range(ctx.budget(150, 3000)):
+        nodes, edges, V, kind = L2.rand_digraph(ctx.rng)
+        dag_case(ctx, nodes, edges, V, kind)
+
+
+def prop_count_counted(d: DFA, k: int, fck: int):
+    v = on_fresh(d, lambda c: c.count_words_of_length(k))
+    if v != ("ok", fck):
+        return [f"count_words_of_length({k}) = {v}, forward path counting over the table gives {fck}"]
+    return []
+
+
+def prop_random_counted(d: DFA, k: int, seed: int, fck: int):
+    r, choices, log = L.random_word_recorded(fresh(d), k, seed)
+    out = []
+    if fck == 0:
+        if r != ("err", "ValueError"):
+            out.append(f"random_word({k}) = {r} although no word of length {k} is accepted (ValueError expected)")
+    elif r[0] != "ok":
+        out.append(f"random_word({k}, seed={seed}) raised {r[1]} although {fck} words of length {k} exist")
+    elif len(r[1]) != k or not d.accepts_input(r[1]):
+        out.append(f"random_word({k}, seed={seed}) = {r[1]!r} is not an accepted word of length {k}")
+    return out, r, choices
+
+
+@case_guard
+def check_big_dfa(ctx: Ctx, d: DFA, kind: str):
+    """G5: DFAs with 10–14 states.  Words by brute force for the short lengths only; counts for
+    every length ≤ 2n and the cardinality by forward path counting; min/max by subset simulation."""
+    rng = ctx.rng
+    enc, st, sy = enc_dfa(d)
+    shape = L.language_shape(d)
+    n = len(d.states)
+    nontrivial = not shape["empty"]
+    ctx.stat("origin:big")
+    ctx.stat(f"kind:{kind}")
+    ctx.stat(f"states:{n}")
+    ctx.stat("lang:empty" if shape["empty"] else ("lang:finite" if shape["finite"] else "lang:infinite"))
+    KB = 3 if len(d.input_symbols) > 1 else 6
+    top = 2 * n
+    bw = L.brute_words(d, KB)
+    fc = L2.forward_counts(d, top)
+    if [len(bw[k]) for k in range(KB + 1)] != fc[: KB + 1]:
+        raise L.InfraError(f"oracles disagree (brute force vs forward counting) on {d!r}")
+    mv, mct = model_count(ctx, enc, top)
+    ks = sorted(set(range(KB + 1)) | {rng.randint(KB + 1, top) for _ in range(3)} | {top})
+    for k in ks:
+        ctx.case(("big-count", enc, k) if nontrivial else None)
+        bad = prop_count_counted(d, k, fc[k])
+        for b in bad:
+            fail(ctx, d, "count_big", dict(k=k), b)
+        if k <= KB:
+            for b in prop_count_words(d, k, bw):
+                bad.append(b)
+                fail(ctx, d, "count_words", dict(k=k), b)
+        ctx.stat("count:zero" if not fc[k] else "count:positive")
+        if not bad and mct[k][st(d.initial_state)] != fc[k]:
+            ctx.corr_diff("COUNT(big)", dict(automaton=repr(d), k=k), fc[k], mct[k][st(d.initial_state)])
+    c = fresh(d)
+    v = call(lambda: c.count_words_of_length(top))
+    ct = [[lvl.get(q, 0) for q in st.order] for lvl in c._count_cache]
+    if (v, ct) != (("ok", mv), mct):
+        ctx.corr_diff("COUNT tables(big)", dict(automaton=repr(d), k=top), dict(v=v), dict(v=mv))
+    # MINMAX
+    ctx.case(("minmax", enc) if nontrivial else None)
+    bad, obs = prop_minmax(d, shape)
+    for b in bad:
+        fail(ctx, d, "minmax", {}, b)
+    t = Toks(ctx.driver(L.DRV).ask(toks("MINMAX", enc)))
+    t.expect("min"); m_min = t.res(t.int)
+    t.expect("max"); m_max = t.res(t.optint)
+    t.expect("empty"); m_empty = ("ok", bool(t.int()))
+    t.expect("finite"); m_fin = t.res(lambda: bool(t.int()))
+    mod = dict(min=m_min, max=m_max, empty=m_empty, finite=m_fin)
+    if mod != obs and not bad:
+        ctx.corr_diff("MINMAX(big)", dict(automaton=repr(d)), obs, mod)
+    # CARD
+    ctx.case(("card", enc) if nontrivial else None)
+    bad, obs, known = prop_card_counted(d)
+    for b in bad:
+        fail(ctx, d, "len_big", {}, b)
+    for b in known:
+        ctx.prop_fail(f"len: {b}", dict(automaton=repr(d), op="len_big", params={}, what=b), L2.KEY_LEN)
+    mod = model_card(ctx, enc)
+    if mod != obs and not bad:
+        ctx.corr_diff("CARD(big)", dict(automaton=repr(d)), obs, mod)
+    # ITER: the words of length ≤ KB are a prefix of the iteration
+    ordered = [w for k in range(KB + 1) for w in bw[k]]
+    npre = min(len(ordered), 6)
+    ctx.case(("iter", enc, npre) if nontrivial else None)
+    bad, got = prop_iter(d, npre, ordered[:npre])
+    for b in bad:
+        fail(ctx, d, "iter_big", dict(n=npre, KB=KB), b)
+    ctx.stat("iter:prefix")
+    # RANDOM
+    for k in {rng.randint(0, KB), rng.randint(KB + 1, top)}:
+        seed = rng.randrange(1 << 30)
+        ctx.case(("random", enc, k, seed) if nontrivial else None)
+        bad, r, choices = prop_random_counted(d, k, seed, fc[k])
+        for b in bad:
+            fail(ctx, d, "random_big", dict(k=k, seed=seed), b)
+        t = Toks(ctx.driver(L.DRV).ask(toks("RANDOM", enc, k, len(choices), choices)))
+        m = t.res(lambda: "".join(sy.back(c) for c in t.ints()))
+        ctx.stat("random:valueerror" if r[0] == "err" else "random:word")
+        if m != r and not bad:
+            ctx.corr_diff("RANDOM(big)", dict(automaton=repr(d), k=k, choices=choices), r, m)
+
+
 def corpus():
     ab = {"a", "b"}
     yield "F3_empty_language", DFA.empty_language(ab)
@@ -400,6 +637,13 @@ def run(ctx: Ctx):
         if hanging():
             return
     big_lengths(ctx)
+    len_probes(ctx)
+    temporaries_probe(ctx)
+    dag_family(ctx)
+    for d in L2.empty_alphabet_dfas(3):
+        check_dfa(ctx, d, "empty_alphabet", uniform=True)
+    ctx.exhaustive("all DFAs over the EMPTY alphabet with ≤3 states (every initial state and final set, complete and "
+                   "partial): the full battery (the only possible word is '')")
     # bounded-exhaustive
     for n_states in (1, 2):
         for d in gen.all_dfas(n_states, ("a", "b")):
@@ -409,10 +653,14 @@ def run(ctx: Ctx):
     ctx.exhaustive("all DFAs (complete and partial, all final sets) with ≤2 states over {a,b} × every k ≤ "
                    + ("6" if ctx.thorough() else "5") + " (count, words, all DP tables), min/max/empty/finite, cardinality/len, "
                    "iteration prefixes, random_word" + (" incl. exact output distribution for k ≤ 3" if ctx.thorough() else ""))
-    for _ in range(ctx.budget(900, 18000)):
-        d, kind = L.shaped_dfa(rng, 6)
-        ctx.stat(f"kind:{kind}")
-        check_dfa(ctx, d, "random", uniform=rng.random() < 0.15)
+    for i in range(ctx.budget(900, 18000)):
+        if i % 12 == 11:
+            d, kind = L2.bigger_dfa(rng)
+            check_big_dfa(ctx, d, kind)
+        else:
+            d, kind = L.shaped_dfa(rng, 6)
+            ctx.stat(f"kind:{kind}")
+            check_dfa(ctx, d, "random", uniform=rng.random() < 0.15)
         if hanging():
             return
 
@@ -420,8 +668,32 @@ def run(ctx: Ctx):
 def replay(ctx: Ctx, path: str) -> int:
     data = json.load(open(path))
     rp = data.get("replay", data)
-    d = eval(rp["automaton"], {"DFA": DFA, "frozenset": frozenset})
     op, params = rp["op"], rp.get("params", {})
+    if op in ("temporary", "len_big", "count_big", "random_big", "iter_big"):
+        # round-2 families: no brute-force enumeration of the whole language
+        if op == "temporary":
+            r = prop_temporary(rp["automaton"], params["method"])
+            bad = r[0] + r[1]
+        else:
+            d = L2.eval_dfa(rp["automaton"])
+            if op == "len_big":
+                r = prop_card_counted(d)
+                bad = r[0] + r[2]
+            elif op == "count_big":
+                bad = prop_count_counted(d, params["k"], L2.forward_counts(d, params["k"])[params["k"]])
+            elif op == "random_big":
+                bad = prop_random_counted(d, params["k"], params["seed"], L2.forward_counts(d, params["k"])[params["k"]])[0]
+            else:
+                bw = L.brute_words(d, params["KB"])
+                ordered = [w for k in sorted(bw) for w in bw[k]]
+                bad = prop_iter(d, params["n"], ordered[: params["n"]])[0]
+        if bad:
+            print(f"VIOLATION property=C13 replay={path}")
+            print("  " + bad[0])
+            return 1
+        print("replay: property holds on this input now")
+        return 0
+    d = eval(rp["automaton"], {"DFA": DFA, "frozenset": frozenset})
     shape = L.language_shape(d)
     K = max(K_for(d), params.get("k", 0))
     hi = K if (not shape["finite"] or shape["empty"]) else max(K, shape["max"])
@@ -432,7 +704,8 @@ def replay(ctx: Ctx, path: str) -> int:
     elif op == "minmax":
         bad = prop_minmax(d, shape)[0]
     elif op == "card":
-        bad = prop_card(d, shape, bw if shape["finite"] else {})[0]
+        r = prop_card(d, shape, bw if shape["finite"] else {})
+        bad = r[0] + r[2]
     elif op == "iter":
         ordered = [w for k in sorted(bw) for w in bw[k]]
         bad = prop_iter(d, params["n"], ordered[: params["n"]])[0]
